@@ -14,8 +14,8 @@ SENT = ["Ends.", "Really?", "Yes!", "(so.)", 'said."']
 # words that look like block syntax (only those the line-start escaping is meant to protect: see known findings
 # for the ones it does not)
 HAZ = ["-", "+", "*", "#", "##", ">", "1.", "2)", "10.", "-x", "#tag", "1.5", "|", "a|b"]
-INLINE = ["*em*", "**strong**", "`code`", "`a b`", "[link](http://x.y)", "[l k](http://x.y/a_b \"T\")", "![img](i.png)", "[t](http://r.ef/x)", "[t2](http://r.ef/x \"Other\")", "![i2](http://r.ef/x)",
-          "<http://auto.link>", "http://bare.url/x", "<https://e.com/o'neil>", "https://e.com/what's-new...x", "<b>", "</b>", "<span class=\"x y\">", "~~gone~~", "[^fn]", "[ref]",
+INLINE = ["*em*", "**strong**", "`code`", "`a b`", "[link](http://x.y)", "[l k](http://x.y/a_b \"T\")", "[w](http://x.y/t \"T  w\")", "![img](i.png)", "[t](http://r.ef/x)", "[t2](http://r.ef/x \"Other\")", "![i2](http://r.ef/x)",
+          "<http://auto.link>", "http://bare.url/x", "www.example.com/p", "<https://e.com/o'neil>", "https://e.com/what's-new...x", "<b>", "</b>", "<span class=\"x y\">", "~~gone~~", "[^fn]", "[ref]",
           "\\*lit\\*", "2023\\.", "7\\)", "\\# no", "\"quoted\"", "it's", "wait...", "a_b_c", "2*3*4", "&amp;", "x<y"]
 TAGS = ["{% t %}", "{% /t %}", "{{ v }}", "{# c #}", "<!-- h -->", "{% a x=\"1 2\" %}", "{% t %}{% /t %}", "<!-- a --><!-- /a -->",
         "{% p l=\"50% used\" %}", "{{ i % 2 }}", "{# 10 # 2 #}", "<!-- a - b -> c -->"]
@@ -40,7 +40,10 @@ def paragraph(rnd, n=None, with_tags=False, hazards=True, breaks=True):
             if breaks and r < 0.12 and toks[i] not in HAZ and not toks[i].startswith(("[^", "|", "<", "{")) and toks[i - 1] not in TAGS:
                 out.append("\n")
             elif breaks and r < 0.16 and toks[i] not in HAZ and not toks[i].startswith(("[^", "|", "<", "{")):
-                out.append("\\\n")
+                # both hard-break spellings; directly after a bare URL only the two-space one (a backslash glued to a bare URL
+                # is part of the URL for the parser: such an input has no hard break to preserve)
+                bare = "://" in toks[i - 1] and not toks[i - 1].startswith(("<", "[", "!")) or toks[i - 1].startswith("www.")
+                out.append("\\\n" if rnd.random() < 0.7 and not bare else "  \n")
             elif r < 0.22:
                 out.append("  ")
             else:
@@ -57,7 +60,7 @@ def indent(text, first, rest):
 def block(rnd, depth=0, with_tags=False, in_list=False):
     hz = getattr(rnd, "hazards", True)
     kinds = ["para"] * 4 + ["atx", "setext", "bullet", "ordered", "task", "quote", "fence", "table", "rule",
-                            "linkdef", "alert"] + (["tagblock"] * 2 if with_tags and depth == 0 else [])
+                            "linkdef", "alert", "htmlblock"] + (["tagblock"] * 2 if with_tags and depth == 0 else [])
     if depth == 1:
         # inside containers: only constructs whose nesting flowmark (and Marko's parser) handle regularly;
         # headings / rules / link definitions / indented code inside list items or quotes are outside the bound
@@ -115,6 +118,8 @@ def block(rnd, depth=0, with_tags=False, in_list=False):
         al = rnd.choice(("---", ":--", "--:", ":-:"))
         cell = lambda: rnd.choice(["a", "`c`", "x \\| y", "**b**", "\"q\"", "l...", "", "`p \\| q`", "*`e \\| f`*"])
         return "| h1 | h2 |\n| %s | --- |\n| %s | %s |\n| %s | %s |" % (al, cell(), cell(), cell(), cell())
+    if k == "htmlblock":
+        return rnd.choice(["<div class=\"x  y\">\nhtml *not md*  \"q\" ...\n</div>", "<!-- block\n  comment -->", "<details>\n<summary>S</summary>\n</details>"])
     if k == "rule":
         return rnd.choice(("***", "---", "* * *", "___"))
     if k == "linkdef":
@@ -142,7 +147,8 @@ def document(rnd, with_tags=False, nblocks=None, hazards=True):
         blocks[0] = "***"          # a leading '---' line would be (unclosed) frontmatter
     # footnote definitions only at the end of the document (Marko's footnote extension absorbs what follows)
     if rnd.random() < 0.25:
-        blocks.append("[^fn]: " + paragraph(rnd, with_tags=False, breaks=False, hazards=hazards))
+        blocks.append("[^fn]: " + paragraph(rnd, with_tags=False, breaks=False, hazards=hazards)
+                      + (("\n\n    " + paragraph(rnd, n=3, with_tags=False, breaks=False, hazards=False)) if rnd.random() < 0.4 else ""))
     return "\n\n".join(blocks) + "\n"
 
 
@@ -156,7 +162,7 @@ def _collapse(s):
     return re.sub(r"\s+", " ", s)
 
 
-def canonical(text, preprocess=True):
+def canonical(text, preprocess=True, exact_titles=False):
     """Canonical structure of a Markdown text as flowmark's own parser reads it (positions dropped, whitespace runs
     collapsed, soft breaks = spaces, escapes resolved, indented code = fenced code, blank lines dropped)."""
     from flowmark.formats.flowmark_markdown import flowmark_markdown
@@ -204,7 +210,8 @@ def canonical(text, preprocess=True):
                 out.append((t.replace("Custom", ""), inl(c.children)))
             elif t in ("Link", "Image"):
                 flush()
-                out.append((t, c.dest, c.title, inl(c.children)))
+                # (C01 reads a title up to whitespace runs; its exact text is C04's business: literal_spans)
+                out.append((t, c.dest, c.title if exact_titles or not c.title else _collapse(c.title), inl(c.children)))
             elif t in ("AutoLink", "Url"):
                 flush()
                 out.append(("autolink", c.dest))
@@ -215,6 +222,16 @@ def canonical(text, preprocess=True):
                 flush()
                 out.append((t, getattr(c, "children", None) if isinstance(getattr(c, "children", None), str) else None))
         flush()
+        # whitespace next to a hard break is not significant (the line ends there): trim it
+        for k, a in enumerate(out):
+            if a[0] == "text":
+                t = a[1]
+                if k + 1 < len(out) and out[k + 1] == ("hardbreak",):
+                    t = t.rstrip()
+                if k > 0 and out[k - 1] == ("hardbreak",):
+                    t = t.lstrip()
+                out[k] = ("text", t)
+        out = [a for a in out if a != ("text", "")]
         # merge adjacent text atoms, trim
         merged = []
         for a in out:
@@ -293,7 +310,7 @@ def literal_spans(text):
             else:
                 for x in node:
                     walk(x)
-    walk(canonical(text, preprocess=False)[1])
+    walk(canonical(text, preprocess=False, exact_titles=True)[1])
     return out
 
 
